@@ -76,6 +76,30 @@ CLAIMED = {
              'and its HitEnum is nM (default parameters satisfy the side conditions for every n >= 2); bin centre within half a resolution. NOT provable in this family: that FFT cross-correlation + scipy.find_peaks put a seed within delta of the '
              'true diagonal and that this candidate wins (floating point, plateau dependent) — that hypothesis is MEASURED by the end-to-end oracle on planted queries in all four modes (exact pairs, strand, nM, |queryShift| <= 200 from the captured winning candidate).',
         note=NOTE + 'numpy/scipy seeding numerics are outside the model; multi-peak winning candidates are measured only.', design='6 (C06), 10.4', technique='Coq proof of the conditional core + measured seeding hypothesis (end-to-end planted queries) + pipeline correspondence'),
+    'C04': dict(
+        text='Theorems in coq/props/C04.v for ALL parameter values, maps, seed-peak lists, both strands: pair score = SP - DPU*|offset|, unpaired = SU; every segment reported by the model of Aligner.align has score = sum of its positions and its '
+             'positions are configured-score images of the engine output of ITS OWN peak (nothing re-scored through factory, chain, slice, __sub__, resolver); confidence = recomputed double sum (also from raw label positions; also for joined rows); '
+             'offsets follow the formula and are <= DMAX; no label twice inside a segment; no label inside a segment span unaccounted for (C04_no_gap, via the sub-run lift through the resolver loop). '
+             'Tie: Aligner.align stream with non-default parameters; end-to-end CLI runs with non-default -sp/-dp/-su/-d/-ms/-bs whose captured candidates are re-scored from the CMAP text and replayed through the model (wrong wiring shows as disagreement).',
+        note=NOTE + 'getScoredPosition raising for su > 0 and the factory raising for ms <= 0 are not modelled (parameter grid keeps su <= 0 < ms).', design='6 (C04)', technique='Coq proof (score invariant through every constructor) + pipeline and end-to-end correspondence + independent re-scoring oracle'),
+    'C05': dict(
+        text='Theorems in coq/props/C05.v over model/Coordinator.v + Multi.v for every seeding function: filter_subsequent keeps exactly the first maximum-confidence row per query, ascending ids, idempotent; main file of every mode and the first/second-pass '
+             'files have strictly ascending (hence unique) query ids; align_query returns the first maximum-confidence candidate in seed order, execute keeps it iff it has pairs; in best mode the record set is exactly the queries with a first- or second-pass row, each once, ascending. '
+             'Tie: exhaustive/random synthetic rows for the filters; end-to-end runs with -p in {1,3,6}: first-pass record = first maximum captured candidate; whole runs replayed through the Coordinator model with the captured seeds.',
+        note=NOTE + 'Seeding numerics are an arbitrary function (theorems hold for all of them).', design='6 (C05)', technique='Coq proof over an abstract seeding function + run-model correspondence + end-to-end oracle with candidate capture'),
+    'C08': dict(
+        text='Theorems in coq/props/C08.v for every seeding function, parameters, maxDifference: main(all) = main(joined), _1/_2(all) = main/_1(separate), AlignedRest flags, groups are a partition of size <= 2, every single-pass row is un-joined or part of exactly one joined row, '
+             'join guard (same query/reference/strand, gap <= maxDifference), joined pairs subset of the parts (sub-run form under well-formedness); "joined = union when the union is valid" is REFUTED for the code as it is (C08_join_is_union_refuted; open known finding F7: resolve uses only segments[0]) and proved for non-conflicting single-segment parts. '
+             'Tie: whole runs replayed through the Coordinator/MultiPass model with captured seeds (incl. gap == maxDifference boundary runs); text oracle over the four modes on join-rich data sets; F7 matched by a specific signature (KNOWN-FINDING), anything else is a violation.',
+        note=NOTE + 'F7 is listed in known_findings.json with its witness; best mode is covered by C05 and the run-model stream.', design='6 (C08), 10.4', technique='Coq proof + refutation witness + run-model correspondence + four-mode text oracle with known-finding signature'),
+    'C10': dict(
+        text='Theorems in coq/props/C10.v for every seeding function (query-locality is its type; reference order is discharged at the reader level via C17_perm): execute = concatenation of per-query results; records of a query are the same in a run on all queries, on any subset, on [q] alone and under any permutation (all modes, up to the unprinted source counter); '
+             'runs on row/molecule-permuted CMAP files are identical; -qId/-rId = physically restricted files. Tie: real runs (full, shuffled rows, subset, complement, -qId, -rId, added queries, single-molecule runs, colliding id spaces) compared as text; run-model stream across variants.',
+        note=NOTE + 'XmapEntryID is excluded from "the record" (it is a running number).', design='6 (C10)', technique='Coq proof (locality of every grouping step; erasure of the source counter) + end-to-end variant comparison'),
+    'C11': dict(
+        text='PARTIAL. coq/props/C11.v proves the deterministic half: positions_with_ids of the mirror image on the other strand = renumbered labels; pairing commutes with renumbering under the no-tie hypothesis (which holds on a lattice with 2d < step); scoring, factory, chain, conflict step, resolver, Aligner.align, Row.create (same reference span and confidence, start/end exchanged) and HitEnum commute with any injective renumbering; '
+             'C11_align_lattice quantifies over all lattice inputs and ANY seed peaks. NOT provable here: that q on + and mirror(q) on - receive the same seeds (bit-vector reversal, FFT, find_peaks, top-N) — exercised by the end-to-end oracle on lattice data sets (separate mode), with the failing stage named if it ever differs.',
+        note=NOTE + 'Seeding numerics outside the model.', design='6 (C11), 10.4', technique='Coq proof (renumbering commutes with every stage) + pipeline correspondence on mirrored pairs + end-to-end mirror oracle'),
 }
 PENDING_REASON = 'check not built yet in this round (planned: DESIGN.md section 6); will be claimed once its model, theorems and correspondence run'
 
